@@ -10,5 +10,6 @@ CONSTANTS
   TypesOnly = FALSE
   CallsOnly = FALSE
   Rich = FALSE
+  Inplace = TRUE
 INVARIANTS ScopeWellFormed ReplayAgrees MergeIndependent
 CHECK_DEADLOCK FALSE
